@@ -174,6 +174,18 @@ CLAIMS = {
             "fragments are written only as their NFC normalisation. Value-level equality with the OLPC "
             "form, NFC itself and integer formatting are not decided.",
             "DESIGN.md §4 C11"),
+    "C10": ("who-may-construct / who-may-write queries + MIR value-origin, dominance and must-pass rules "
+            "over the editor (SignedRole, snapshot/timestamp builders, update_delegated_targets, "
+            "TargetsWalker) + interprocedural file-name template comparison writer vs. client",
+            "Decides that digest/length recorded for a role are those of the very buffer written, that "
+            "snapshot/timestamp entries describe the roles actually written under their own file names, "
+            "that written metadata names equal the names the client requests, that a non-root role below "
+            "its threshold is refused, that incoming delegated metadata is stored only after verify_role "
+            "and a not-lower version, that only digest-matching files are published, and that removals "
+            "apply to both target sets. Recorded findings: add_role does not verify (D10); targets with "
+            "URL-escaped characters are not downloadable over file:// (D14). Round-trip equality of "
+            "content is not decided.",
+            "DESIGN.md §4 C10"),
 }
 
 NOT_YET = {}
